@@ -137,7 +137,8 @@ def run(tier):
             go_flagged = set()
             for x in rep["violations"]:
                 v.violation(x["sig"], x["detail"], x["replay"])
-                go_flagged.add((x["replay"]["op"], x["replay"]["arg"]))
+                if "op" in x["replay"]:
+                    go_flagged.add((x["replay"]["op"], x["replay"]["arg"]))
 
             # T: TLC judges the recorded returns against F (SharedCodec!ReturnOK)
             tr = require_ok(run_tlc(s, "SharedCodecTrace", marker='"REJECTED"', workers=1, copy=False, env=dict(TRACE=ev), timeout=1200),
